@@ -207,6 +207,9 @@ func (g *c06Guard) Referrers(ctx context.Context, repo string, d ociregistry.Dig
 
 const c06HelloDigest = "sha256:2cf24dba5fb0a30e26e83b2ac5b9e29e1b161e5c1fa7425e73043362938b9824"
 
+// the same digest with upper-case hex: right shape and length, but not a valid digest
+const c06UpperDigest = "sha256:2CF24DBA5FB0A30E26E83B2AC5B9E29E1B161E5C1FA7425E73043362938B9824"
+
 func c06MemBackend() ociregistry.Interface {
 	m := ocimem.New()
 	ctx := context.Background()
@@ -240,6 +243,13 @@ func c06Backend(name string) ociregistry.Interface {
 	b.Refs = []ociregistry.Descriptor{descOf(mtOpaque, []byte("x"))}
 	switch {
 	case name == "rec-ok":
+	case name == "rec-ok-id1k":
+		// upload IDs belong to the backend: a proxying backend uses whole upstream URLs
+		b.UploadID = "https://upstream.example/v2/some/repository/blobs/uploads/" + strings.Repeat("0123456789abcdef", 60) + "?_state=" + strings.Repeat("Zz", 20)
+	case name == "rec-ok-id5k":
+		b.UploadID = strings.Repeat("u", 5000)
+	case name == "rec-ok-idodd":
+		b.UploadID = "https://up.example/a b/é?x=%2F&y=+#frag"
 	case name == "rec-plain":
 		b.Err = fmt.Errorf("plain backend error")
 		b.CommitErr, b.WriteErr = b.Err, b.Err
@@ -459,7 +469,7 @@ func c06Kind(q c06Req) string {
 func c06Requests(thorough bool) []c06Req {
 	var out []c06Req
 	methods := []string{"GET", "HEAD", "PUT", "POST", "PATCH", "DELETE", "OPTIONS"}
-	segs := []string{"", "a", "A", "..", "blobs", "manifests", "uploads", "tags", "list", "referrers", "_catalog", c06HelloDigest, "sha256:xyz", "dTE", "!!",
+	segs := []string{"", "a", "A", "..", "blobs", "manifests", "uploads", "tags", "list", "referrers", "_catalog", c06HelloDigest, c06UpperDigest, "sha256:xyz", "dTE", "!!",
 		strings.Repeat("t", 129), strings.Repeat("n", 256)}
 	maxSeg := 3
 	if thorough {
@@ -497,9 +507,11 @@ func c06Requests(thorough bool) []c06Req {
 		{"GET", "/v2/a/blobs/uploads/dTE"}, {"PATCH", "/v2/a/blobs/uploads/dTE"}, {"PUT", "/v2/a/blobs/uploads/dTE"},
 		{"PATCH", "/v2/a/blobs/uploads/bm9uZQ"}, {"PUT", "/v2/a/blobs/uploads/bm9uZQ"},
 		{"GET", "/v2/a/tags/list"}, {"GET", "/v2/_catalog"}, {"GET", "/v2/a/referrers/" + d},
+		{"GET", "/v2/a/blobs/" + c06UpperDigest}, {"DELETE", "/v2/a/blobs/" + c06UpperDigest}, {"GET", "/v2/a/manifests/" + c06UpperDigest},
+		{"PUT", "/v2/a/manifests/" + c06UpperDigest}, {"GET", "/v2/a/referrers/" + c06UpperDigest},
 	}
 	queries := []string{"", "n=", "n=0", "n=1", "n=2", "n=-1", "n=x", "n=99999999999999999999", "last=", "last=a", "last=%zz", "n=1&last=a",
-		"digest=", "digest=" + d, "digest=sha256:xyz", "mount=" + d, "mount=" + d + "&from=a", "mount=" + d + "&from=A!", "mount=bad&from=a", "from=a", "digest=" + d + "&mount=" + d,
+		"digest=", "digest=" + d, "digest=sha256:xyz", "digest=" + c06UpperDigest, "mount=" + c06UpperDigest + "&from=a", "mount=" + d, "mount=" + d + "&from=a", "mount=" + d + "&from=A!", "mount=bad&from=a", "from=a", "digest=" + d + "&mount=" + d,
 		"%zz", "a=b;c=d", "n=1&n=2"}
 	hmenu := map[string][]string{
 		"Range":          {"bytes=0-0", "bytes=0-", "bytes=1-3", "bytes=3-1", "bytes=-1", "bytes=9-", "bytes=0-0,2-3", "garbage", "bytes=", "bytes=a-b", "bytes=0-99999999999999999999"},
@@ -515,9 +527,17 @@ func c06Requests(thorough bool) []c06Req {
 	optsMenu := []string{"", "omitdigest", "all"}
 	hnames := []string{"Range", "Content-Range", "Content-Length", "Content-Type"}
 	for _, sh := range shapes {
-		for _, b := range recBackends {
+		bks := recBackends
+		if k := c06Kind(c06Req{Path: sh.path}); k == "upload-start" || k == "upload-session" {
+			// backends whose own upload IDs are long or URL-like (the server turns them into Location headers)
+			bks = append(append([]string(nil), recBackends...), "rec-ok-id1k", "rec-ok-id5k", "rec-ok-idodd")
+		}
+		for _, b := range bks {
 			for _, opts := range optsMenu {
 				if opts != "" && b != "mem" && b != "rec-ok" {
+					continue
+				}
+				if strings.HasPrefix(b, "rec-ok-id") && opts != "" {
 					continue
 				}
 				for _, qs := range queries {
@@ -575,7 +595,7 @@ func c06Check(r *vcore.Run) vcore.Coverage {
 		"a writer counts as closed after Close, Cancel or a successful Commit",
 	}
 	return vcore.Coverage{Evaluations: int64(len(reqs)), Nontrivial: handled, Exhaustive: true,
-		Rule: fmt.Sprintf("request lines: 7 methods x every path of <= %d segments over a 17-entry menu (empty, valid/upper-case/dot-dot names, the routing words, valid and malformed digests, a live upload id, 129-char tag, 256-char name) against a seeded ocimem and a recording backend; directed shapes of all 20 request kinds x 24 query strings x 7 bodies x headers Range/Content-Range/Content-Length/Content-Type from boundary menus (<= 2 non-default headers) x backends {ocimem, recording ok, plain error, each of the 15 standard errors} x server option sets; non-trivial = requests that reach a handler family", map[bool]int{false: 3, true: 4}[r.Thorough()])}
+		Rule: fmt.Sprintf("request lines: 7 methods x every path of <= %d segments over an 18-entry menu (empty, valid/upper-case/dot-dot names, the routing words, valid and malformed digests, a live upload id, 129-char tag, 256-char name) against a seeded ocimem and a recording backend; directed shapes of all 20 request kinds x 24 query strings x 7 bodies x headers Range/Content-Range/Content-Length/Content-Type from boundary menus (<= 2 non-default headers) x backends {ocimem, recording ok, plain error, each of the 15 standard errors; for upload requests also backends issuing 1 KiB URL-like, 5 KiB and oddly-charactered upload IDs} x server option sets; non-trivial = requests that reach a handler family", map[bool]int{false: 3, true: 4}[r.Thorough()])}
 }
 
 func c06Replay(r *vcore.Run, sub string, raw json.RawMessage) {
